@@ -182,6 +182,10 @@ pub fn dt_expect(inst: i128, off: i32, op: &DtOp) -> Expect {
                 return Expect::Skip;
             }
             let l2 = fields::clear_until(local, *u);
+            if near_edge(l2) {
+                // first partial year of the range: the cleared date does not exist (statement silent)
+                return Expect::Skip;
+            }
             Expect::Value(l2 - off as i128 * ins::NS, off)
         }
     }
